@@ -189,6 +189,7 @@ type Obligation struct {
 	MustFail bool // canary: expected not unsat
 	Result  *SolverResult
 	File    string
+	qhash   string // hash of the query text (result cache within one run)
 	Extra   []string // extra declarations local to this obligation (skolems)
 }
 
